@@ -508,6 +508,13 @@ def closeOf (delim : Str) : Pat :=
 def blockNamesWithUnterminated : List Str :=
   ["code".toList, "comment".toList, "division".toList, "quote".toList]
 
+/-- after `readTo`: a code, comment, division or quote block whose closing delimiter was not found (the reader is
+    at end of input) is reported -/
+def unterminatedCheck (d : BlockDef) (mt : Match) (reader : Reader) : M Unit :=
+  if reader.eof && blockNamesWithUnterminated.contains d.name then
+    errorCallback ("unterminated ".toList ++ d.name ++ " block: ".toList ++ mt.whole)
+  else pure ()
+
 /-- The body of `delimitedblocks.render` once definition `d` has matched and been verified, up to (not including)
     the final reset of the consumed block options. -/
 def renderBlockBody (rec : Rec) (env : Env) (d : BlockDef) (mt : Match) (reader : Reader) (writer : Writer) :
@@ -523,8 +530,7 @@ def renderBlockBody (rec : Rec) (env : Env) (d : BlockDef) (mt : Match) (reader 
   let lines0 : List Str := if delimiterText != [] then [delimiterText] else []
   let reader := reader.next
   let (content, reader) ← reader.readTo closeMatch
-  if reader.eof && blockNamesWithUnterminated.contains d.name then
-    errorCallback ("unterminated ".toList ++ d.name ++ " block: ".toList ++ mt.whole)
+  unterminatedCheck d mt reader
   let reader := reader.next
   let lines := lines0 ++ content
   let expand := d.expand.merge (← get).opts
